@@ -751,6 +751,7 @@ func (w *c17World) deliver(it *c17Item) bool {
 		}
 		b := it.callee
 		pre := w.snap(b)
+		preNotices := len(globals.hub.rehash)
 		w.tr("deliver %s", it)
 		w.action = "on-vote-request"
 		if it.health {
@@ -795,7 +796,9 @@ func (w *c17World) deliver(it *c17Item) bool {
 		}
 		w.settle()
 		if it.health && !queued {
-			w.judgeHealth(it, pre)
+			// nothing but b's loop ran since pre was taken (no clock advance, no other delivery): a new notice to the
+			// hub is b's
+			w.judgeHealth(it, pre, len(globals.hub.rehash) > preNotices)
 		}
 		return true
 	}
@@ -1011,8 +1014,10 @@ func c17SigOf(nodes []string) string {
 	return r.Signature()
 }
 
-// judgeHealth: node b's loop was idle, received health check it and is quiescent again.
-func (w *c17World) judgeHealth(it *c17Item, pre c17Snap) {
+// judgeHealth: node b's loop was idle, received health check it and is quiescent again. hubTold: b's loop told the
+// hub to rehash while it processed the check (Cluster.run does that when, and only when, it rehashes to the check's
+// node list).
+func (w *c17World) judgeHealth(it *c17Item, pre c17Snap, hubTold bool) {
 	w.mu.Lock()
 	defer w.mu.Unlock()
 	if w.panicked {
@@ -1049,18 +1054,30 @@ func (w *c17World) judgeHealth(it *c17Item, pre c17Snap) {
 		// first check with a different ring: the code waits for a second one before rehashing
 		w.strike[b] = 1
 		w.stat["ring-mismatch-first"]++
+		w.tr("%s: ring mismatch, first strike", c17Names[b])
 		return
 	case 2:
-		// the node processed a check while the harness could not watch it: an unchanged ring means this was the
-		// first strike, otherwise the demands of the second strike apply
-		if post.sig == pre.sig {
+		// The node processed a check while the harness could not watch it, so whether the code's rehashSkipped is
+		// set is not known: find out from what the code did now. A changed ring is a rehash: second strike. An
+		// unchanged ring is the first strike only if a rehash to this check's node list would have changed it. When
+		// the list's ring is the ring the node has already (a leader whose Signature is not that of its Nodes: the
+		// known finding health-check-ring-signature-not-adopted), the code's second strike rehashes to the same ring,
+		// clears rehashSkipped and leaves no trace in the ring; what tells the two apart is the rehash notice
+		// Cluster.run sends to the hub with every rehash. Taking that case for a first strike (as this model did) put
+		// the model one check ahead of the code: it then demanded adoption at the code's next FIRST mismatching check.
+		if post.sig == pre.sig && !(hubTold && c17SigOf(h.Nodes) == pre.sig) {
 			w.strike[b] = 1
 			w.stat["ring-mismatch-first"]++
+			w.tr("%s: ring mismatch, first strike (unwatched check before it)", c17Names[b])
 			return
+		}
+		if post.sig == pre.sig {
+			w.stat["second-strike-rehash-to-same-ring"]++
 		}
 	}
 	w.strike[b] = 0
 	w.stat["ring-mismatch-second"]++
+	w.tr("%s: ring mismatch, second strike", c17Names[b])
 	if want := c17SigOf(h.Nodes); post.sig != want {
 		w.fail("health-check-node-list-not-adopted", "node %s accepted a second health check with another ring (leader %s, term %d, nodes %v) but its ring %s is not the ring of that node list (%s)",
 			c17Names[b], h.Leader, h.Term, sorted, post.sig, want)
